@@ -1007,6 +1007,122 @@ Proof.
     rewrite Hh in N. assert (zlist_eqb digest digest = true) by (apply zlist_eqb_eq; reflexivity). congruence.
 Qed.
 
+(** * Completeness of the combinatorial search inside its distance, and its confinement
+      to the 64 bits of the register *)
+
+(** the value with exactly the bits of [bs] set *)
+Fixpoint mask_of (bs : list Z) : Z :=
+  match bs with
+  | [] => 0
+  | b :: t => Z.lor (Z.shiftl 1 b) (mask_of t)
+  end.
+
+(** [picks bs bits]: [bs] is some of the positions [bits], in their order (so without
+    repetition when [bits] has none) *)
+Inductive picks : list Z -> list Z -> Prop :=
+| picks_nil : forall bits, picks [] bits
+| picks_take : forall b bs bits, picks bs bits -> picks (b :: bs) (b :: bits)
+| picks_skip : forall b bs bits, picks bs bits -> picks bs (b :: bits).
+
+Lemma masks_zero : forall bits, masks bits 0 = [0].
+Proof. destruct bits; reflexivity. Qed.
+
+Lemma masks_picks : forall bs bits, picks bs bits -> In (mask_of bs) (masks bits (length bs)).
+Proof.
+  intros bs bits H. induction H as [bits|b bs bits H IH|b bs bits H IH].
+  - cbn [length mask_of]. rewrite masks_zero. left. reflexivity.
+  - cbn [length mask_of masks]. apply in_or_app. left. apply in_map. exact IH.
+  - destruct bs as [|c bs].
+    + cbn [length mask_of]. rewrite masks_zero. left. reflexivity.
+    + cbn [length] in *. cbn [masks]. apply in_or_app. right. exact IH.
+Qed.
+
+Lemma comb_cands_complete : forall limit bs,
+  picks bs (seqZ 0 64) -> (length bs <= comb_limit limit)%nat -> In (mask_of bs) (comb_cands limit).
+Proof.
+  intros limit bs Hp Hl. unfold comb_cands. apply in_flat_map. exists (length bs). split.
+  - apply in_seq. lia.
+  - apply masks_picks. exact Hp.
+Qed.
+
+Theorem repair_complete_comb : forall (Hp : meas -> Z -> list Z) P st m digest bs,
+  st_comb_enabled st = true ->
+  picks bs (seqZ 0 64) -> (length bs <= comb_limit (st_comb_limit st))%nat ->
+  Hp m (Z.lxor (m_first8 m) (mask_of bs)) = digest ->
+  exists v, repair Hp P st m digest = Some v /\ Hp m v = digest.
+Proof.
+  intros Hp P st m digest bs En Hb Hl Hh.
+  destruct (repair Hp P st m digest) as [v|] eqn:R.
+  - exists v. split; [reflexivity|]. eapply repair_sound. exact R.
+  - exfalso. unfold repair in R.
+    destruct (linear_search Hp P (st_lin_limit st) m digest); [discriminate|].
+    rewrite En in R. unfold comb_search in R.
+    destruct (find _ (comb_cands (st_comb_limit st))) as [x|] eqn:F; cbn [option_map] in R; [discriminate|].
+    pose proof (find_none _ _ F (mask_of bs) (comb_cands_complete _ _ Hb Hl)) as N. cbn beta in N.
+    rewrite Hh in N. assert (zlist_eqb digest digest = true) by (apply zlist_eqb_eq; reflexivity). congruence.
+Qed.
+
+(** a digest that no value of the register explains (PCR0_DATA differing behind its
+    first 8 bytes, say) is never repaired, whatever the settings are *)
+Theorem repair_none_if_no_register : forall (Hp : meas -> Z -> list Z) P st m digest,
+  (forall v, Hp m v <> digest) -> repair Hp P st m digest = None.
+Proof.
+  intros Hp P st m digest H. destruct (repair Hp P st m digest) as [v|] eqn:R; [|reflexivity].
+  exfalso. apply (H v). eapply repair_sound. exact R.
+Qed.
+
+Lemma lor_lt_64 : forall a b, 0 <= a < 2 ^ 64 -> 0 <= b < 2 ^ 64 -> 0 <= Z.lor a b < 2 ^ 64.
+Proof.
+  intros a b Ha Hb. assert (N : 0 <= Z.lor a b) by (apply Z.lor_nonneg; lia). split; [exact N|].
+  destruct (Z.eq_dec (Z.lor a b) 0) as [E|E]; [rewrite E; reflexivity|].
+  apply Z.log2_lt_pow2; [lia|]. rewrite Z.log2_lor by lia. apply Z.max_lub_lt.
+  - destruct (Z.eq_dec a 0) as [A|A]; [subst a; reflexivity|]. apply Z.log2_lt_pow2; lia.
+  - destruct (Z.eq_dec b 0) as [B|B]; [subst b; reflexivity|]. apply Z.log2_lt_pow2; lia.
+Qed.
+
+Lemma lxor_lt_64 : forall a b, 0 <= a < 2 ^ 64 -> 0 <= b < 2 ^ 64 -> 0 <= Z.lxor a b < 2 ^ 64.
+Proof.
+  intros a b Ha Hb. assert (N : 0 <= Z.lxor a b) by (apply Z.lxor_nonneg; lia). split; [exact N|].
+  destruct (Z.eq_dec (Z.lxor a b) 0) as [E|E]; [rewrite E; reflexivity|].
+  apply Z.log2_lt_pow2; [lia|]. eapply Z.le_lt_trans; [apply Z.log2_lxor; lia|]. apply Z.max_lub_lt.
+  - destruct (Z.eq_dec a 0) as [A|A]; [subst a; reflexivity|]. apply Z.log2_lt_pow2; lia.
+  - destruct (Z.eq_dec b 0) as [B|B]; [subst b; reflexivity|]. apply Z.log2_lt_pow2; lia.
+Qed.
+
+Lemma masks_range : forall bits k x,
+  Forall (fun b => 0 <= b < 64) bits -> In x (masks bits k) -> 0 <= x < 2 ^ 64.
+Proof.
+  induction bits as [|b t IH]; intros k x Hb Hx.
+  - destruct k; cbn [masks In] in Hx; [destruct Hx as [<-|[]]; lia|contradiction].
+  - inversion Hb as [|? ? Hb1 Hb2]; subst. destruct k as [|k]; cbn [masks] in Hx.
+    + destruct Hx as [<-|[]]. lia.
+    + apply in_app_or in Hx. destruct Hx as [Hx|Hx].
+      * apply in_map_iff in Hx. destruct Hx as (y & <- & Hy). apply lor_lt_64; [|eapply IH; eassumption].
+        rewrite Z.shiftl_1_l. split; [apply Z.pow_nonneg; lia|apply Z.pow_lt_mono_r; lia].
+      * eapply IH; eassumption.
+Qed.
+
+Lemma comb_cands_range : forall limit x, In x (comb_cands limit) -> 0 <= x < 2 ^ 64.
+Proof.
+  intros limit x H. unfold comb_cands in H. apply in_flat_map in H. destruct H as (k & _ & H).
+  eapply masks_range; [|exact H]. apply Forall_forall. intros b Hb. apply In_seqZ_iff in Hb. lia.
+Qed.
+
+(** whatever is returned as the corrected register is a 64-bit value: the search varies
+    the 8 bytes of the register and nothing else of the measurement *)
+Theorem repair_register_range : forall (Hp : meas -> Z -> list Z) P st m digest v,
+  0 <= m_first8 m < 2 ^ 64 ->
+  repair Hp P st m digest = Some v -> 0 <= v < 2 ^ 64.
+Proof.
+  intros Hp P st m digest v Hm. unfold repair, linear_search, comb_search.
+  destruct (find _ (lin_cands P (st_lin_limit st))) as [d|] eqn:F; cbn [option_map].
+  - intro E. inversion E; subst. unfold wrap64, W64. pose proof (Z.mod_pos_bound (m_first8 m - d) (2 ^ 64) ltac:(lia)). lia.
+  - destruct (st_comb_enabled st); [|discriminate].
+    destruct (find _ (comb_cands (st_comb_limit st))) as [x|] eqn:G; cbn [option_map]; [|discriminate].
+    intro E. inversion E; subst. apply find_some in G. destruct G as [G _].
+    apply lxor_lt_64; [exact Hm|]. eapply comb_cands_range. exact G.
+Qed.
+
 (** * Readable ranges, in plain arithmetic *)
 
 Lemma range_readable_iff : forall isz off len,
